@@ -72,6 +72,16 @@ def answer (x : PMInput) (o : PMObject) (q : Json) : Except String Json := do
   let f ← getNat q "f"
   if kind == "volume" then
     -- `get_volume` with all transforms off: per slice the stored values of the frame written there (null: blank)
+    match q.getObjVal? "sel" with
+    | .ok sj =>
+      let rr := getVolumeReal x o (← getBool q "cached") (← getRatList q "ori") (← getOptRat q "hint") none none
+        (← getBool q "allow_missing") (← getSelector sj)
+      return (match rr with
+        | .error e => Json.mkObj [("err", Json.str e.toString)]
+        | .ok (_, _, slices) => Json.mkObj [("ok", Json.mkObj [("slices", Json.arr (slices.map (fun sl => match sl with
+            | none => Json.null
+            | some vals => ratsToJson vals)).toArray)])])
+    | .error _ => pure ()
     let r := getVolume x o (← getBool q "cached") (← getRatList q "ori") (← getOptRat q "hint") none none (← getBool q "allow_missing")
     return (match r with
       | .error e => Json.mkObj [("err", Json.str e.toString)]
